@@ -15,7 +15,7 @@ RULE = ("A generated program (C02 generator: forward / backward label references
         "assembling the spliced text; 1 case in 8 repeats the comparison through real assembler.py processes (--to_bin "
         "bytes, --print --symbols output). A second search includes one label-free file two or three times in a "
         "program (side by side, or once directly and once through another file). Half of the programs carry comments "
-        "holding VT, FF, FS, GS, RS, NEL, U+2028 or U+2029 (line ends to str.splitlines, not to a file read line by line). Missing files and inclusion cycles must be diagnostics. Non-trivial = a "
+        "holding VT, FF, FS, GS, RS, NEL, U+2028 or U+2029 (line ends to str.splitlines, not to a file read line by line). Missing files (including names that run through a regular file, name a directory or are too long for the file system) and inclusion cycles must be diagnostics. Non-trivial = a "
         "label reference crosses a file boundary; distinct by case hash.")
 ASSUMPTIONS = [
     "the spliced program is the reference: both sides run the same assembler, the relation is metamorphic",
@@ -56,6 +56,16 @@ NEGATIVE = [
     ("cycle2-mixed-spelling", {"main.asm": [" INCLUDE a.asm\n"], "a.asm": [" INCLUDE ./b.asm\n"], "b.asm": [" INCLUDE ./a.asm\n"]}),
     ("cycle-dotdot", {"main.asm": [" INCLUDE inc/../a.asm\n"], "a.asm": [" INCLUDE inc/../a.asm\n"], "inc/x.asm": [" NOP \n"]}),
     ("missing-dot-slash", {"main.asm": [" INCLUDE ./nosuch.asm\n"]}),
+    # names that cannot be opened for another reason than "no such file": a path through a regular file, a directory,
+    # a name longer than the file system allows - at the top level and from an included file
+    ("through-a-file", {"main.asm": [" NOP \n", " INCLUDE a.asm/tail.asm\n"], "a.asm": [" NOP \n"]}),
+    ("through-a-file-nested", {"main.asm": [" INCLUDE a.asm\n"], "a.asm": [" NOP \n", " INCLUDE b.asm/x.asm\n"], "b.asm": [" NOP \n"]}),
+    ("a-directory", {"main.asm": [" NOP \n", " INCLUDE inc\n"], "inc/x.asm": [" NOP \n"]}),
+    ("a-directory-nested", {"main.asm": [" INCLUDE a.asm\n"], "a.asm": [" INCLUDE inc\n"], "inc/x.asm": [" NOP \n"]}),
+    ("a-directory-slash", {"main.asm": [" INCLUDE inc/\n"], "inc/x.asm": [" NOP \n"]}),
+    ("name-too-long", {"main.asm": [" NOP \n", " INCLUDE " + "x" * 300 + ".asm\n"]}),
+    ("name-too-long-nested", {"main.asm": [" INCLUDE a.asm\n"], "a.asm": [" INCLUDE sub/" + "y" * 300 + "\n"], "sub/x.asm": [" NOP \n"]}),
+    ("parent-directory", {"main.asm": [" INCLUDE ..\n"]}),
 ]
 
 
